@@ -20,7 +20,7 @@ LONG = {"a": "anonymize-ips", "p": "anonymize-passwords", "u": "undo", "P": "pre
 OPT = {"salt": ("-s", "salt"), "dump": ("-d", "dump-ip-map"), "asnums": ("-n", "as-numbers"), "reserved": ("-r", "reserved-words"), "words": ("-w", "sensitive-words"),
        "prefixes": ("--preserve-prefixes", "preserve-prefixes"), "addresses": ("--preserve-addresses", "preserve-addresses")}
 VALS = {"salt": ["s", "abc123", "Salt_9", "x-y"], "dump": ["map.txt", "/tmp/nv_dump_never_written"], "asnums": ["65001", "65001,65002", "1,22,333"], "reserved": ["foo", "foo,Bar"],
-        "words": ["sea", "sea,seattle", "a,b,c"], "prefixes": ["10.0.0.0/8", "10.0.0.0/8,192.168.0.0/16", "0.0.0.0/0"], "addresses": ["1.2.3.4", "11.0.0.0/8,1.2.3.4/32"]}
+        "words": ["sea", "sea,seattle", "a,b,c"], "prefixes": ["10.0.0.0/8", "10.0.0.0/8,192.168.0.0/16", "0.0.0.0/0"], "addresses": ["1.2.3.4", "11.0.0.0/8,1.2.3.4/32", "10.1.0.0/16", "192.168.5.5,172.20.0.0/16", "10.0.0.0/8"]}
 
 
 def rand_record(rng, valid=None):
@@ -88,7 +88,7 @@ def run(ctx):
     # targeted: every invalid combination and the nothing-enabled case
     base = dict(input="i", output="o", flags="", hostbits=None, **{k: None for k in OPT})
     for fl, extra in [("u", {}), ("ua", {"salt": "s"}), ("u", {"salt": "s"}), ("", {"dump": "m.txt"}), ("p", {"dump": "m.txt"}), ("a", {"dump": "m.txt"}), ("", {}), ("", {"reserved": "x"}),
-                      ("", {"asnums": ""}), ("", {"words": ""}), ("P", {}), ("aP", {"addresses": "1.2.3.4"}), ("aP", {}), ("", {"salt": "s", "prefixes": "10.0.0.0/8"})]:
+                      ("", {"asnums": ""}), ("", {"words": ""}), ("P", {}), ("aP", {"addresses": "1.2.3.4"}), ("aP", {}), ("aP", {"addresses": "10.1.0.0/16"}), ("aP", {"addresses": "192.168.5.5,8.8.8.8"}), ("uP", {"salt": "s"}), ("uP", {"salt": "s", "addresses": "172.16.1.0/24"}), ("", {"salt": "s", "prefixes": "10.0.0.0/8"})]:
         r = dict(base, flags=fl)
         r.update(extra)
         recs.append(r)
